@@ -1,6 +1,7 @@
 package props
 
 import (
+	"crypto/tls"
 	"encoding/json"
 	"fmt"
 	"strings"
@@ -27,6 +28,7 @@ type c07Offender struct {
 	Setup [][]string // run by the offender first (its own keys)
 	Bytes []byte     // then these raw bytes
 	End   string     // "close" | "reset" | "wait" (read until the server closes or goes quiet)
+	TLS   string     // offender on the TLS port: "junk" | "plain-text" | "untrusting" | "abort" (End is ignored)
 }
 
 func c07Offenders() []c07Offender {
@@ -60,11 +62,18 @@ func c07Offenders() []c07Offender {
 		// a client that pipelines requests and never reads the replies: once its
 		// receive window is full the server's Write to it blocks; nobody else may notice
 		{Name: "stops-reading", Bytes: concat(cmd("ECHO", "0123456789abcdef"), cmd("ECHO", "0123456789abcdef"), cmd("ECHO", "0123456789abcdef"), cmd("PING")), End: "stall"},
+		// offenders on the TLS port whose handshake cannot succeed: they must be
+		// disconnected (they never close themselves), everybody else is served
+		{Name: "tls-junk", TLS: "junk"},
+		{Name: "tls-plain-text", TLS: "plain-text"},
+		{Name: "tls-untrusting-client", TLS: "untrusting"},
+		{Name: "tls-abort-after-hello", TLS: "abort"},
 		{Name: "stops-reading-big-reply", Setup: [][]string{{"RPUSH", "ol", "aaaaaaaaaaaaaaaa", "bbbbbbbbbbbbbbbb"}}, Bytes: concat(cmd("LRANGE", "ol", "0", "-1"), cmd("LRANGE", "ol", "0", "-1")), End: "stall"},
 	}
 }
 
 type c07SchedWorld struct {
+	offRaw   *vrt.Conn
 	off      c07Offender
 	witness  []string
 	viol     []string
@@ -74,11 +83,53 @@ type c07SchedWorld struct {
 
 func (w *c07SchedWorld) body() {
 	ex := exsrv.NewServer()
+	var kit *tlsKit
+	if w.off.TLS != "" {
+		k, err := getKit()
+		if err != nil {
+			w.viol = append(w.viol, "harness\x00"+err.Error())
+			return
+		}
+		kit = k
+		ex.SetTLSPort(6380)
+		ex.SetTLSCertFile(kit.ServerCert)
+		ex.SetTLSKeyFile(kit.ServerKey)
+		ex.SetTLSCaCertFile(kit.CAFile)
+	}
 	if err := ex.Start(); err != nil {
 		w.viol = append(w.viol, "start-failed\x00"+err.Error())
 		return
 	}
+	if w.off.TLS != "" {
+		vrt.Go("offender", func() {
+			raw, err := vrt.Dial(":6380")
+			if err != nil {
+				w.offNotes = append(w.offNotes, "refused")
+				return
+			}
+			w.offRaw = raw
+			buf := make([]byte, 256)
+			switch w.off.TLS {
+			case "junk":
+				raw.Write([]byte(strings.Repeat("\x16\x03\x01junk!", 6)))
+				raw.ReadOrQuiet(buf)
+			case "plain-text":
+				raw.Write(resp.Cmd("PING").Bytes())
+				raw.ReadOrQuiet(buf)
+			case "untrusting":
+				tc := tls.Client(raw, &tls.Config{ServerName: "localhost", Certificates: kit.Clients["valid"]}) // no RootCAs: the server certificate is rejected
+				w.offNotes = append(w.offNotes, fmt.Sprint("handshake: ", tc.Handshake() != nil))
+				raw.ReadOrQuiet(buf)
+			case "abort":
+				tc := tls.Client(&abortConn{Conn: raw}, kit.clientTLSConfig(kit.Clients["valid"]))
+				tc.Handshake()
+			}
+		})
+	}
 	vrt.Go("offender", func() {
+		if w.off.TLS != "" {
+			return
+		}
 		cl, o := sched.Dial(":6379")
 		if o.Status != "ok" {
 			w.offNotes = append(w.offNotes, "refused")
@@ -127,6 +178,26 @@ func (w *c07SchedWorld) body() {
 	}
 	w.late = cl.Do("PING").String()
 	cl.Close()
+	if w.off.TLS != "" {
+		if w.offRaw != nil && !w.offRaw.PeerClosed() && !w.offRaw.ClosedLocally() {
+			w.viol = append(w.viol, "offender-not-disconnected\x00the TLS client whose handshake cannot succeed ("+w.off.TLS+") was neither answered nor disconnected by the server")
+		}
+		// and the TLS port still serves a proper client
+		raw, err := vrt.Dial(":6380")
+		if err != nil {
+			w.viol = append(w.viol, "tls-port-not-accepting-afterwards\x00dial refused after the "+w.off.TLS+" client")
+			return
+		}
+		tc := tls.Client(raw, kit.clientTLSConfig(kit.Clients["valid"]))
+		if err := tc.Handshake(); err != nil {
+			w.viol = append(w.viol, "tls-port-not-accepting-afterwards\x00handshake of a valid client failed after the "+w.off.TLS+" client: "+err.Error())
+			return
+		}
+		if r := sched.Wrap(tc, raw).Do("PING"); r.String() != `+"PONG"` {
+			w.viol = append(w.viol, "tls-port-not-accepting-afterwards\x00a valid TLS client's PING got "+r.String())
+		}
+		tc.Close()
+	}
 }
 
 var c07WitnessExpected = []string{`+"OK"`, `$"1"`, `:"2"`, `$"x"`, `:"2"`, `[$"a" $"b"]`}
